@@ -8,7 +8,11 @@ META = {
             "explicit range checks, Ratio<i32> routines modelled from num-rational, doubles computed exactly by a pure "
             "round-to-nearest-even over rationals): an exact answer always equals the result in Q for every "
             "representation pair; quotient/remainder/modulo are total for a non-zero divisor and equal tdiv/tmod/fmod "
-            "in every representation. The model is tied to the code by bit-exact comparison (value, representation and "
+            "in every representation; for abs floor ceiling truncate numerator denominator expt an inexact answer is "
+            "given only when the exact result is not representable and the answer does not depend on the "
+            "representation of the operand (full strength, no guard; expt after fix 7762e0a). The pure rounding "
+            "function is proved monotone, exact on representable values and within 2^-53 relative in the normal range. "
+            "The model is tied to the code by bit-exact comparison (value, representation and "
             "double bit pattern) over the boundary palette of the property squared, through marwood::number::Number "
             "directly and through the Scheme procedures, in a release and in a debug build; every answer of the "
             "implementation is also judged against exact rational arithmetic (exact and equal, or inexact only when "
@@ -16,11 +20,22 @@ META = {
     "note": "Trusted: Lean kernel; axioms propext, Classical.choice, Quot.sound; the hand-written model is tied to the "
             "Rust code by differential testing only; Stein gcd, Ratio::cmp and i64/i32::checked_pow are modelled by "
             "their mathematical results; IEEE-754 arithmetic enters as the pure function Fl.rnd (round to nearest even "
-            "of the exact result), validated bit-for-bit against the hardware on every inexact answer of the streams "
-            "but not proved correct against the standard; results whose magnitude leaves the doubles' normal range "
+            "of the exact result): proved monotone, exact on the values of finite doubles and within 2^-53 relative in "
+            "the normal range (rnd_monotone, rnd_exact_on_doubles, rnd_relative_error about the implementation in "
+            "Num/F64.lean, no RndLaws hypothesis left); that this function is what the hardware computes is validated "
+            "bit-for-bit on every inexact answer of the streams, not proved; results whose magnitude leaves the doubles' normal range "
             "are outside the error-bound clause (reported as 'outside'); expt is exercised with exponents up to 1000. "
-            "The clause 'inexact only when not representable' and representation independence are FALSE for the "
-            "pinned code (five known findings, each with a proved witness); they are proved only under explicit guards.",
+            "Closed theorems (no guard): T08.1 for + - * / abs numerator denominator floor ceiling truncate expt, "
+            "T08.3, T08.5, T08.2 and T08.4 for abs floor ceiling truncate numerator denominator expt (also for the "
+            "procedure expt with the exponent in any representation), the 2^-53 accuracy of an inexact expt in the "
+            "normal range and of an inexact abs (T08_2_expt_accuracy, T08_2_abs_accuracy). _partial (explicit guard): T08.2 for + - * on "
+            "integer representations and for / on integers within i32, T08.4 for + as equality of exact values. "
+            "The clause 'inexact only when not representable' and representation independence are FALSE for + - * / "
+            "(four known findings, each with a proved witness: not_T08_2_add/sub/mul/div, not_T08_4); the float "
+            "fall-backs behind them are asserted by the project's own unit tests number::tests::{add,sub,mul,div} "
+            "(value and enum discriminant), so a repair would require editing the suite. The error bound of an inexact "
+            "answer is a theorem for expt, abs, + and - (T08_2_*_accuracy: 2^-50 relative to max(|x|,|y|,|result|) for "
+            "magnitudes below 2^1000); for * and / it is carried by the rational oracle on the implementation only.",
     "technique": "Lean 4 proof (model answer = exact rational result, all representation pairs) + bit-exact "
                  "model-vs-implementation correspondence + rational-arithmetic oracle on the implementation",
 }
@@ -34,6 +49,29 @@ THEOREMS = [
     "Marwood.Proofs.C08.remainder_is_tmod",
     "Marwood.Proofs.C08.modulo_is_fmod",
     "Marwood.Proofs.C08.intVal_exact",
+    "Marwood.Proofs.C08.expt_exact_correct",
+    "Marwood.Proofs.C08.T08_2_expt",
+    "Marwood.Proofs.C08.expt_exact_iff_representable",
+    "Marwood.Proofs.C08.T08_4_expt",
+    "Marwood.Proofs.C08.T08_4_scm_expt",
+    "Marwood.Proofs.C08.T08_2_expt_accuracy",
+    "Marwood.Proofs.C08.T08_2_abs_accuracy",
+    "Marwood.Proofs.C08.T08_2_add_accuracy",
+    "Marwood.Proofs.C08.T08_2_sub_accuracy",
+    "Marwood.Proofs.C08.pinned_expt_rational",
+    "Marwood.Proofs.C08.rnd_monotone",
+    "Marwood.Proofs.C08.rnd_exact_on_doubles",
+    "Marwood.Proofs.C08.rnd_relative_error",
+    "Marwood.Proofs.C08.T08_2_abs",
+    "Marwood.Proofs.C08.T08_2_integer_valued",
+    "Marwood.Proofs.C08.T08_4_unary",
+    "Marwood.Proofs.C08.T08_4_numerator_denominator",
+    "Marwood.Proofs.C08.T08_2_partial_integers",
+    "Marwood.Proofs.C08.T08_2_partial_div",
+    "Marwood.Proofs.C08.T08_4_partial_value",
+    "Marwood.Proofs.C08.not_T08_2_add",
+    "Marwood.Proofs.C08.not_T08_2_div",
+    "Marwood.Proofs.C08.not_T08_4",
 ]
 
 
@@ -79,5 +117,5 @@ def run(ctx):
              "exponents {0..5,7,15,16,31,32,40} (+62..1000 for small bases); random 3..5-argument + * -; each case "
              "through marwood::number::Number and through Vm::eval of (proc 'a 'b); release and debug builds; "
              "non-trivial = the call returned a number; distinct by request text",
-        trusted_extra=["pure IEEE-754 binary64 rounding Marwood.Fl.rnd (validated bit-for-bit, not proved against the standard)",
+        trusted_extra=["agreement of the pure IEEE-754 binary64 rounding Marwood.Fl.rnd with the hardware (validated bit-for-bit; the function itself is proved monotone, exact on doubles and 2^-53-accurate)",
                        "num-rational 0.4.1 / num-integer routines modelled by their mathematical results on well-formed ratios"])
